@@ -146,6 +146,15 @@ class SourceFile:
     def rewrite(self):
         new_code = self.new_code()
 
+        # the code is read with universal newlines,
+        # the line endings of the file have to be restored
+        with open(self.filename, encoding="utf-8", newline="") as code:
+            code.read()
+            newlines = code.newlines
+
+        if isinstance(newlines, str) and newlines != "\n":
+            new_code = new_code.replace("\n", newlines)
+
         with open(self.filename, "bw") as code:
             code.write(new_code.encode())
 
